@@ -66,10 +66,20 @@ func (r *Report) Check(rule, fn, construct string, pos token.Pos, ok bool, detai
 	}
 	if ok {
 		o.Verdict = "discharged"
+		o.Detail = "" // the text passed to Check explains a failure; positive evidence goes through CheckHow
 	} else {
 		o.Verdict = "VIOLATED"
 	}
 	r.Obs = append(r.Obs, o)
+	return o
+}
+
+// CheckHow records an obligation with separate texts for the discharged and the violated case.
+func (r *Report) CheckHow(rule, fn, construct string, pos token.Pos, ok bool, how, why string) *Ob {
+	o := r.Check(rule, fn, construct, pos, ok, why)
+	if ok {
+		o.Detail = how
+	}
 	return o
 }
 
